@@ -143,6 +143,7 @@ class Check:
             "undecided": self.undecided[:50],
             "refused": self.refused[:50],
             "bounded": self.bounded,
+            "obligation_results": [[r["name"], r["status"], r["backend"], r.get("time_s", 0)] for r in self.results][:3000],
         }
         cov.update(self.extra)
         if self.level != "proof" or self.bounded:
